@@ -328,8 +328,8 @@ theorem admitSegs_prefix (conv una cwnd now : U32) (q buf : List Seg) (nxt : U32
     unfold admitSegs
     split
     · exact ⟨[], by simp⟩
-    · obtain ⟨t, ht⟩ := ih (buf ++ [{ s with conv := conv, cmd := BitVec.ofNat 8 IKCP_CMD_PUSH, sn := nxt, resendts := now }]) (nxt + 1) (c + 1)
-      exact ⟨[{ s with conv := conv, cmd := BitVec.ofNat 8 IKCP_CMD_PUSH, sn := nxt, resendts := now }] ++ t,
+    · obtain ⟨t, ht⟩ := ih (buf ++ [{ s with conv := conv, cmd := BitVec.ofNat 8 IKCP_CMD_PUSH, sn := nxt, ts := now, resendts := now }]) (nxt + 1) (c + 1)
+      exact ⟨[{ s with conv := conv, cmd := BitVec.ofNat 8 IKCP_CMD_PUSH, sn := nxt, ts := now, resendts := now }] ++ t,
         by rw [ht, List.append_assoc]⟩
 
 /-- with a closed window (`nxt` not before `una + cwnd`) nothing is admitted -/
